@@ -178,6 +178,11 @@ type Program struct {
 	altScreenWasActive bool
 	ignoreSignals      uint32
 
+	// withoutSignals is whether the program was created with WithoutSignals:
+	// taking the terminal back must not switch on the signals the option
+	// switched off.
+	withoutSignals bool
+
 	bpWasActive bool // was the bracketed paste mode active before releasing the terminal?
 	reportFocus bool // was focus reporting active before releasing the terminal?
 
@@ -832,7 +837,9 @@ func (p *Program) ReleaseTerminal() error {
 // terminal to the former state when the program was running, and repaints.
 // Use it to reinitialize a Program after running ReleaseTerminal.
 func (p *Program) RestoreTerminal() error {
-	atomic.StoreUint32(&p.ignoreSignals, 0)
+	if !p.withoutSignals {
+		atomic.StoreUint32(&p.ignoreSignals, 0)
+	}
 
 	if err := p.initTerminal(); err != nil {
 		return err
